@@ -4,13 +4,16 @@ import TracklibVerif.Model.Proj
 `Model/Proj.lean` has the loop twice: the `none`-state forms (`polyLoop / projPolyligne / polyLoopXY / projPolyligneXY`:
 the sentinel is "no current minimum", every distance beats it — the forms the theorems of `Props/C20.lean` are about) and
 the sentinel-faithful S-forms (`polyLoopS / projPolyligneS / polyLoopXYS / projPolyligneXYS`: the test is `dist < inf`
-as in the code — the forms `Tie/C20.lean` proves equal to the translated source on ALL inputs). This file proves that
+as in the code, and the lines after the loop — `if distmin == 1e400: distmin = math.sqrt((x - xproj) ** 2 + (y - yproj) ** 2)`,
+the code since the `fix:` commit 563eeba — are evaluated literally on the code's state by `finishS`, with the squaring `sq` a
+parameter — the forms `Tie/C20.lean` proves equal to the translated source on ALL inputs). This file proves that
 they are EQUAL whenever every distance the loop meets (on a segment that is not skipped and on which `proj_segment`
-returns) is `< inf`, and that this hypothesis is what separates them (`projPolyligneXYS_single_not_lt`).
+returns) is `< inf`, a value `< inf` is not `== inf`, `inf == inf`, and `sq v = .ok (v * v)`; and that the first hypothesis is
+what separates the loops (`projPolyligneXYS_single_not_lt`).
 
 Core Lean only, bare operation classes: nothing is assumed of the scalar type, so the statements hold for IEEE doubles
-(`inf = +∞`: the hypothesis says "no distance is `inf`/NaN") as well as for an ordered field (any `inf` above the
-distances). -/
+(`inf = +∞`: the hypotheses say "no distance is `inf`/NaN, no square overflows into an `OverflowError`") as well as for an
+ordered field (any `inf` above the distances, `sq v := .ok (v * v)`). -/
 namespace TV.Proj
 
 /-- a distance `< inf` is judged by the code's test exactly as by the `none`-state test -/
@@ -71,26 +74,98 @@ theorem polyLoopXYS_eq (np : Bool) (inf : α) (sqrt : α → α) (eps x y : α) 
             simp only [polyLoopXYS, polyLoopXY, hsk, hp, betterS_eq_better inf r.1 cur hlt]
             exact ih (y2 :: ys') (i + 1) _ hinf'
 
-/-- **agreement for `proj_polyligne(Xp, Yp, x, y)`**: under the hypothesis that every distance met is `< inf`, the
-sentinel-faithful `projPolyligneXYS` (what the code does) is `projPolyligneXY` (what the theorems are about),
-exceptions included -/
-theorem projPolyligneXYS_eq (np : Bool) (inf : α) (sqrt : α → α) (eps : α) (X Y : List α) (x y : α)
-    (hinf : ∀ (j : Nat) (x1 y1 x2 y2 : α) (r : α × α × α), X[j]? = some x1 → Y[j]? = some y1 → X[j + 1]? = some x2 →
-      Y[j + 1]? = some y2 → skipped eps x1 y1 x2 y2 = false →
-      projSegmentG np sqrt x1 y1 x2 y2 x y = .ok r → r.1 < inf) :
-    projPolyligneXYS np inf sqrt eps X Y x y = projPolyligneXY np sqrt eps X Y x y := by
-  unfold projPolyligneXYS projPolyligneXY
-  rw [polyLoopXYS_eq np inf sqrt eps x y X Y 0 none hinf]
+/-- under the sentinel hypothesis every minimum the `none`-state loop ends with is `< inf` (it is one of the distances met) -/
+theorem polyLoopXY_lt_inf (np : Bool) (inf : α) (sqrt : α → α) (eps x y : α) :
+    ∀ (X Y : List α) (i : Nat) (cur res : Option (α × α × α × Nat)),
+      (∀ (j : Nat) (x1 y1 x2 y2 : α) (r : α × α × α), X[j]? = some x1 → Y[j]? = some y1 → X[j + 1]? = some x2 →
+        Y[j + 1]? = some y2 → skipped eps x1 y1 x2 y2 = false →
+        projSegmentG np sqrt x1 y1 x2 y2 x y = .ok r → r.1 < inf) →
+      (∀ c, cur = some c → c.1 < inf) → polyLoopXY np sqrt eps x y X Y i cur = .ok res → ∀ c, res = some c → c.1 < inf := by
+  intro X
+  induction X with
+  | nil => intro Y i cur res _ hc h; simp only [polyLoopXY] at h; injection h with h; subst h; exact hc
+  | cons x1 tl ih =>
+    cases tl with
+    | nil => intro Y i cur res _ hc h; simp only [polyLoopXY] at h; injection h with h; subst h; exact hc
+    | cons x2 xs =>
+      intro Y i cur res hinf hc h
+      match Y with
+      | [] => simp only [polyLoopXY] at h; cases h
+      | [_] => simp only [polyLoopXY] at h; cases h
+      | y1 :: y2 :: ys' =>
+        have hinf' : ∀ (j : Nat) (a1 b1 a2 b2 : α) (r : α × α × α), (x2 :: xs)[j]? = some a1 → (y2 :: ys')[j]? = some b1 →
+            (x2 :: xs)[j + 1]? = some a2 → (y2 :: ys')[j + 1]? = some b2 → skipped eps a1 b1 a2 b2 = false →
+            projSegmentG np sqrt a1 b1 a2 b2 x y = .ok r → r.1 < inf :=
+          fun j a1 b1 a2 b2 r h1 h2 h3 h4 => hinf (j + 1) a1 b1 a2 b2 r h1 h2 h3 h4
+        cases hsk : skipped eps x1 y1 x2 y2 with
+        | true =>
+          simp only [polyLoopXY, hsk, if_true] at h
+          exact ih (y2 :: ys') (i + 1) cur res hinf' hc h
+        | false =>
+          cases hp : projSegmentG np sqrt x1 y1 x2 y2 x y with
+          | error e => simp only [polyLoopXY, hsk, hp] at h; cases h
+          | ok r =>
+            have hlt : r.1 < inf := hinf 0 x1 y1 x2 y2 r rfl rfl rfl rfl hsk hp
+            simp only [polyLoopXY, hsk, hp] at h
+            refine ih (y2 :: ys') (i + 1) _ res hinf' ?_ h
+            intro c hc'
+            split at hc'
+            · injection hc' with hc'; rw [← hc']; exact hlt
+            · exact hc c hc'
 
-/-- the same with Python numbers (`np = false`), the hypothesis stated on the kernel `projSegment`: literally the
-hypothesis `hinf` of `Tie/C20.lean` `tie_proj_polyligne` -/
-theorem projPolyligneXYS_eq_false (inf : α) (sqrt : α → α) (eps : α) (X Y : List α) (x y : α)
+/-- the lines after the loop on a state that is not the sentinel: nothing changes -/
+theorem finishS_kept (inf : α) (sqrt : α → α) (sq : α → Except Err α) (x y : α) (s : α × α × α × Nat)
+    (h : isEq s.1 inf = false) : finishS inf sqrt sq x y s = .ok s := by
+  unfold finishS; rw [h]; rfl
+
+/-- the lines after the loop on the initial state `(inf, x0, y0, 0)` (nothing kept), when `inf == inf` and `v ** 2 = v * v`:
+the first vertex and the distance to it -/
+theorem finishS_none (inf : α) (sqrt : α → α) (sq : α → Except Err α) (x y x0 y0 : α)
+    (hii : isEq inf inf = true) (hsq : ∀ v, sq v = .ok (v * v)) :
+    finishS inf sqrt sq x y (encS inf x0 y0 none) = .ok (firstVertex sqrt x y x0 y0) := by
+  simp only [finishS, encS, hii, hsq, firstVertex, if_true]
+
+/-- **agreement for `proj_polyligne(Xp, Yp, x, y)`**: under the hypotheses that every distance met is `< inf`, that a value
+`< inf` is not `== inf`, that `inf == inf`, and that `v ** 2` is `v * v` (never raising), the sentinel-faithful
+`projPolyligneXYS` (what the code does) is `projPolyligneXY` (what the theorems are about), exceptions included. All four
+hold for finite distances on doubles with `inf = +∞` away from the overflow of `v ** 2`, and in an ordered field for any
+`inf` above the distances. -/
+theorem projPolyligneXYS_eq (np : Bool) (inf : α) (sqrt : α → α) (sq : α → Except Err α) (eps : α) (X Y : List α) (x y : α)
     (hinf : ∀ (j : Nat) (x1 y1 x2 y2 : α) (r : α × α × α), X[j]? = some x1 → Y[j]? = some y1 → X[j + 1]? = some x2 →
       Y[j + 1]? = some y2 → skipped eps x1 y1 x2 y2 = false →
-      projSegment sqrt x1 y1 x2 y2 x y = .ok r → r.1 < inf) :
-    projPolyligneXYS false inf sqrt eps X Y x y = projPolyligneXY false sqrt eps X Y x y :=
-  projPolyligneXYS_eq false inf sqrt eps X Y x y
+      projSegmentG np sqrt x1 y1 x2 y2 x y = .ok r → r.1 < inf)
+    (hne : ∀ d : α, d < inf → isEq d inf = false) (hii : isEq inf inf = true) (hsq : ∀ v, sq v = .ok (v * v)) :
+    projPolyligneXYS np inf sqrt sq eps X Y x y = projPolyligneXY np sqrt eps X Y x y := by
+  unfold projPolyligneXYS projPolyligneXY
+  match X with
+  | [] => rfl
+  | x0 :: xs =>
+    match Y with
+    | [] => rfl
+    | y0 :: ys =>
+      simp only []
+      rw [polyLoopXYS_eq np inf sqrt eps x y (x0 :: xs) (y0 :: ys) 0 none hinf]
+      cases hl : polyLoopXY np sqrt eps x y (x0 :: xs) (y0 :: ys) 0 none with
+      | error e => rfl
+      | ok res =>
+        cases res with
+        | none => simp only [finishS_none inf sqrt sq x y x0 y0 hii hsq]; rfl
+        | some r =>
+          have hlt : r.1 < inf :=
+            polyLoopXY_lt_inf np inf sqrt eps x y _ _ 0 none _ hinf (fun c hc => nomatch hc) hl r rfl
+          simp only [encS, finishS_kept inf sqrt sq x y r (hne r.1 hlt)]; rfl
+
+/-- the same with Python numbers (`np = false`), the sentinel hypothesis stated on the kernel `projSegment`: literally the
+hypothesis `hinf` of `Tie/C20.lean` `tie_proj_polyligne` -/
+theorem projPolyligneXYS_eq_false (inf : α) (sqrt : α → α) (sq : α → Except Err α) (eps : α) (X Y : List α) (x y : α)
+    (hinf : ∀ (j : Nat) (x1 y1 x2 y2 : α) (r : α × α × α), X[j]? = some x1 → Y[j]? = some y1 → X[j + 1]? = some x2 →
+      Y[j + 1]? = some y2 → skipped eps x1 y1 x2 y2 = false →
+      projSegment sqrt x1 y1 x2 y2 x y = .ok r → r.1 < inf)
+    (hne : ∀ d : α, d < inf → isEq d inf = false) (hii : isEq inf inf = true) (hsq : ∀ v, sq v = .ok (v * v)) :
+    projPolyligneXYS false inf sqrt sq eps X Y x y = projPolyligneXY false sqrt eps X Y x y :=
+  projPolyligneXYS_eq false inf sqrt sq eps X Y x y
     (fun j x1 y1 x2 y2 r h1 h2 h3 h4 hs hp => hinf j x1 y1 x2 y2 r h1 h2 h3 h4 hs (projSegmentG_false_ops sqrt x1 y1 x2 y2 x y ▸ hp))
+    hne hii hsq
 
 /-- **agreement of the loops on a vertex list** -/
 theorem polyLoopS_eq (inf : α) (sqrt : α → α) (eps x y : α) :
@@ -121,20 +196,69 @@ theorem polyLoopS_eq (inf : α) (sqrt : α → α) (eps x y : α) :
           simp only [polyLoopS, polyLoop, hsk, hp, betterS_eq_better inf r.1 cur hlt]
           exact ih (i + 1) _ hinf'
 
-/-- **agreement for `proj_polyligne` on a vertex list** (the kernel form `projPolyligne` of the theorems) -/
-theorem projPolyligneS_eq (inf : α) (sqrt : α → α) (eps : α) (pts : List (α × α)) (x y : α)
-    (hinf : ∀ (j : Nat) (p1 p2 : α × α) (r : α × α × α), pts[j]? = some p1 → pts[j + 1]? = some p2 →
-      skipped eps p1.1 p1.2 p2.1 p2.2 = false → projSegment sqrt p1.1 p1.2 p2.1 p2.2 x y = .ok r → r.1 < inf) :
-    projPolyligneS inf sqrt eps pts x y = projPolyligne sqrt eps pts x y := by
-  unfold projPolyligneS projPolyligne
-  rw [polyLoopS_eq inf sqrt eps x y pts 0 none hinf]
+/-- under the sentinel hypothesis every minimum the `none`-state loop on a vertex list ends with is `< inf` -/
+theorem polyLoop_lt_inf (inf : α) (sqrt : α → α) (eps x y : α) :
+    ∀ (pts : List (α × α)) (i : Nat) (cur res : Option (α × α × α × Nat)),
+      (∀ (j : Nat) (p1 p2 : α × α) (r : α × α × α), pts[j]? = some p1 → pts[j + 1]? = some p2 →
+        skipped eps p1.1 p1.2 p2.1 p2.2 = false → projSegment sqrt p1.1 p1.2 p2.1 p2.2 x y = .ok r → r.1 < inf) →
+      (∀ c, cur = some c → c.1 < inf) → polyLoop sqrt eps x y pts i cur = .ok res → ∀ c, res = some c → c.1 < inf := by
+  intro pts
+  induction pts with
+  | nil => intro i cur res _ hc h; simp only [polyLoop] at h; injection h with h; subst h; exact hc
+  | cons p1 tl ih =>
+    cases tl with
+    | nil => intro i cur res _ hc h; simp only [polyLoop] at h; injection h with h; subst h; exact hc
+    | cons p2 rest =>
+      intro i cur res hinf hc h
+      have hinf' : ∀ (j : Nat) (q1 q2 : α × α) (r : α × α × α), (p2 :: rest)[j]? = some q1 → (p2 :: rest)[j + 1]? = some q2 →
+          skipped eps q1.1 q1.2 q2.1 q2.2 = false → projSegment sqrt q1.1 q1.2 q2.1 q2.2 x y = .ok r → r.1 < inf :=
+        fun j q1 q2 r h1 h2 => hinf (j + 1) q1 q2 r h1 h2
+      cases hsk : skipped eps p1.1 p1.2 p2.1 p2.2 with
+      | true =>
+        simp only [polyLoop, hsk, if_true] at h
+        exact ih (i + 1) cur res hinf' hc h
+      | false =>
+        cases hp : projSegment sqrt p1.1 p1.2 p2.1 p2.2 x y with
+        | error e => simp only [polyLoop, hsk, hp] at h; cases h
+        | ok r =>
+          have hlt : r.1 < inf := hinf 0 p1 p2 r rfl rfl hsk hp
+          simp only [polyLoop, hsk, hp] at h
+          refine ih (i + 1) _ res hinf' ?_ h
+          intro c hc'
+          split at hc'
+          · injection hc' with hc'; rw [← hc']; exact hlt
+          · exact hc c hc'
 
-/-- the hypothesis is what separates the two forms: on ONE kept segment whose distance is not `< inf` (a distance
-that is `inf` or NaN on doubles) the sentinel-faithful form raises `UnboundLocalError` (as the code does) and the
-`none`-state form returns that segment -/
-theorem projPolyligneXYS_single_not_lt (np : Bool) (inf : α) (sqrt : α → α) (eps x1 y1 x2 y2 x y : α) (r : α × α × α)
+/-- **agreement for `proj_polyligne` on a vertex list** (the kernel form `projPolyligne` of the theorems), same hypotheses -/
+theorem projPolyligneS_eq (inf : α) (sqrt : α → α) (sq : α → Except Err α) (eps : α) (pts : List (α × α)) (x y : α)
+    (hinf : ∀ (j : Nat) (p1 p2 : α × α) (r : α × α × α), pts[j]? = some p1 → pts[j + 1]? = some p2 →
+      skipped eps p1.1 p1.2 p2.1 p2.2 = false → projSegment sqrt p1.1 p1.2 p2.1 p2.2 x y = .ok r → r.1 < inf)
+    (hne : ∀ d : α, d < inf → isEq d inf = false) (hii : isEq inf inf = true) (hsq : ∀ v, sq v = .ok (v * v)) :
+    projPolyligneS inf sqrt sq eps pts x y = projPolyligne sqrt eps pts x y := by
+  unfold projPolyligneS projPolyligne
+  match pts with
+  | [] => rfl
+  | p0 :: rest =>
+    simp only []
+    rw [polyLoopS_eq inf sqrt eps x y (p0 :: rest) 0 none hinf]
+    cases hl : polyLoop sqrt eps x y (p0 :: rest) 0 none with
+    | error e => rfl
+    | ok res =>
+      cases res with
+      | none => simp only [finishS_none inf sqrt sq x y p0.1 p0.2 hii hsq]
+      | some r =>
+        have hlt : r.1 < inf := polyLoop_lt_inf inf sqrt eps x y _ 0 none _ hinf (fun c hc => nomatch hc) hl r rfl
+        simp only [encS, finishS_kept inf sqrt sq x y r (hne r.1 hlt)]
+
+/-- the sentinel hypothesis is what separates the two forms: on ONE kept segment whose distance is not `< inf` (a distance
+that is `inf` or NaN on doubles) the sentinel-faithful form keeps nothing and answers from the FIRST VERTEX (`finishS` on
+the initial state, as the code does since 563eeba; before, it raised `UnboundLocalError`) while the `none`-state form
+returns that segment -/
+theorem projPolyligneXYS_single_not_lt (np : Bool) (inf : α) (sqrt : α → α) (sq : α → Except Err α) (eps x1 y1 x2 y2 x y : α)
+    (r : α × α × α)
     (hs : skipped eps x1 y1 x2 y2 = false) (hp : projSegmentG np sqrt x1 y1 x2 y2 x y = .ok r) (hn : ¬ r.1 < inf) :
-    projPolyligneXYS np inf sqrt eps [x1, x2] [y1, y2] x y = .error (.base .unbound) ∧
+    projPolyligneXYS np inf sqrt sq eps [x1, x2] [y1, y2] x y =
+        (finishS inf sqrt sq x y (inf, x1, y1, 0)).mapError ErrX.base ∧
       projPolyligneXY np sqrt eps [x1, x2] [y1, y2] x y = .ok (r.1, r.2.1, r.2.2, 0) := by
   have hd : decide (r.1 < inf) = false := decide_eq_false hn
   constructor
